@@ -44,3 +44,18 @@ Lemma inverse_link_parameter_follows :
   call_gives h_link_param_svf 0%nat (qv 3 (-5)) = true /\ call_gives h_link_param_svf 1%nat (qv (-3) 5) = true /\
   keeps_parameter h_link_param_svf 0%nat = true.
 Proof. vm_compute. repeat split; reflexivity. Qed.
+
+(* REPLACING the forward parameters with data_() (not an in-place update): an inverse made with link=False
+   follows only when the parameters are an nn.Parameter (the _parameters dict is shared by shallow copies);
+   with a fixed tensor the forward transform's own _buffers entry is replaced and the inverse keeps the old
+   tensor -- inverse(link=True) follows in both cases.  (Documented meaning of link=False: no reference to
+   the forward transform is kept.) *)
+Definition h_replace (isparam link : bool) : list rop :=
+  [New PV nat CV KLin 0%nat (PkTen PV (qv 1 2, 0%nat) isparam); Inverse PV nat CV 0%nat link false;
+   DataSet PV nat CV 0%nat (qv 3 (-5), 0%nat) false].
+Lemma replacement_followed_through_shared_container :
+  call_gives (h_replace true false) 1%nat (qv (-3) 5) = true /\
+  call_gives (h_replace false true) 1%nat (qv (-3) 5) = true /\
+  call_gives (h_replace true true) 1%nat (qv (-3) 5) = true /\
+  call_gives (h_replace false false) 1%nat (qv (-1) (-2)) = true.
+Proof. vm_compute. repeat split; reflexivity. Qed.
